@@ -33,7 +33,7 @@ for fam in php5 php7; do
 done
 
 (cd "$MC" && go build -overlay "$B/overlay.json" -o "$B/check" ./cmd/check) >"$B/build.log" 2>&1 || { cat "$B/build.log" >&2; fail "go build failed (the tree may not compile)"; }
-if [ "$ID" = C11 ]; then
+if [ "$ID" = C11 ] || [ "$ID" = C18 ]; then
   # free-running pass of C11 under the race detector (complements the scheduler exploration)
   if (cd "$MC" && go build -race -overlay "$B/overlay.json" -o "$B/check-race" ./cmd/check) >"$B/build-race.log" 2>&1; then
     cp "$B/check-race" "$B/check-race.$$"; export VERIF_RACE_BIN="$B/check-race.$$"
